@@ -48,6 +48,7 @@ ASSUMPTIONS = [
     "admissible parameters only: p_type='degree' with n >= 1, ring lattices with n > d + l + k/2, sunflower with m > c and l >= 1, degree sequences with "
     "positive sum, m <= number of nodes for the configuration model; parameters for which the function raises its documented error are counted as rejected",
     "p = 0 clause: random()/geometric could in principle return exactly 0.0 (probability 2^-53); not distinguished",
+    "uniform_HPPM: the two communities are contiguous label ranges; their order and the rounding of rho * n are not demanded (any of floor/ceil, either order)",
     "uniform_HSBM with p[block] == 1: demanded is the *set* of all size-m member sets of the block product (multiplicities are not demanded)",
     "downward closure is demanded for faces of size >= 2 (the class does not store singleton faces)",
     "star_clique is compared with the closed form of its docstring up to isomorphism (labels are not demanded); sunflower by the sunflower definition",
@@ -330,24 +331,36 @@ def hsbm_partition(sizes):
     return out
 
 
-def hsbm_check(mon, fname, trig, H, desc, n, m, p, sizes):
-    nodes, mem = basic(mon, fname, trig, H, desc, range(n), sizes={m})
+def hsbm_violation(mem, m, p, sizes):
+    """None, or (trigger, clause, what) for the block clauses of the HSBM: no edge from probability-0 blocks, all edges of probability-1 blocks."""
     part = hsbm_partition(sizes)
     block_of = {v: b for b, blk in enumerate(part) for v in blk}
     nb = len(sizes)
     positive = {blk for blk in product(range(nb), repeat=m) if p[blk] > 0}
     for e, mm in mem.items():
         if not any(tuple(block_of[v] for v in perm) in positive for perm in permutations(mm)):
-            mon.note("clause:p=0")
-            fire(mon, fname, "p=0", "edge-from-a-probability-0-block", f"edge {sorted(mm)} spans blocks {sorted(block_of[v] for v in mm)} whose probability is 0", desc)
+            return ("p=0", "edge-from-a-probability-0-block", f"edge {sorted(mm)} spans blocks {sorted(block_of[v] for v in mm)} (block sizes {list(sizes)}) whose probability is 0")
     want = set()
     for blk in product(range(nb), repeat=m):
         if p[blk] == 1:
-            mon.note("clause:p=1")
             want |= {frozenset(t) for t in product(*[part[b] for b in blk]) if len(set(t)) == m}
     if not want <= set(mem.values()):
         missing = [sorted(s) for s in want - set(mem.values())]
-        fire(mon, fname, "p=1", "not-all-edges-of-the-block", f"blocks with probability 1 lack {short(missing, 200)}", desc)
+        return ("p=1", "not-all-edges-of-the-block", f"blocks with probability 1 (block sizes {list(sizes)}) lack {short(missing, 200)}")
+    return None
+
+
+def hsbm_check(mon, fname, trig, H, desc, n, m, p, sizes_options):
+    """sizes_options: the block-size vectors the documentation admits (one for uniform_HSBM, several for uniform_HPPM)."""
+    nodes, mem = basic(mon, fname, trig, H, desc, range(n), sizes={m})
+    if (p == 0).any():
+        mon.note("clause:p=0")
+    if (p == 1).any():
+        mon.note("clause:p=1")
+    found = [hsbm_violation(mem, m, p, sizes) for sizes in sizes_options]
+    if all(found):
+        t, clause, what = found[0]
+        fire(mon, fname, t, clause, what, desc)
     return mem
 
 
@@ -376,7 +389,7 @@ def g_uniform_HSBM(mon, rng):
         sizes = np.array(sizes)
     for seed in seeds_for(rng):
         H, desc = call(mon, fname, trig, (n, m, p, sizes), {"seed": with_seed(rng, seed)})
-        mem = hsbm_check(mon, fname, trig, H, desc, n, m, p, list(sizes))
+        mem = hsbm_check(mon, fname, trig, H, desc, n, m, p, [list(sizes)])
         record(mon, fname, (n, m, p.tolist(), list(map(int, sizes))), seed, mem, boundary=trig != "0<=p<1")
 
 
@@ -402,8 +415,9 @@ def g_uniform_HPPM(mon, rng):
     pmax = max(p_in, p_out)
     if abs(pmax - 1) < 1e-9 and pmax != 1:
         return
-    n0 = int(rho * n)
-    sizes = [n0, n - n0]
+    # "rho: the fraction of nodes in community 1": which of the two (symmetric) communities comes first and how rho * n is rounded is not documented
+    lo, hi = int(np.floor(rho * n + 1e-9)), int(np.ceil(rho * n - 1e-9))
+    options = [[a, n - a] for a in sorted({lo, hi, n - lo, n - hi})]
     p = p_out * np.ones([2] * m)
     p[(0,) * m] = p_in
     p[(1,) * m] = p_in
@@ -419,7 +433,7 @@ def g_uniform_HPPM(mon, rng):
         if pmax > 1:
             mon.ev()
             fire(mon, fname, trig, "accepts-probability-above-1", f"block probability {pmax} > 1 was accepted", desc)
-        mem = hsbm_check(mon, fname, trig, H, desc, n, m, p, sizes)
+        mem = hsbm_check(mon, fname, trig, H, desc, n, m, p, options)
         if k == 0 and mem:
             fire(mon, fname, "p=0", "edges-with-mean-degree-0", f"{len(mem)} edges with k = 0", desc)
         record(mon, fname, (n, m, k, eps, rho), seed, mem, boundary=trig != "0<=p<1")
